@@ -485,7 +485,7 @@ def _obligations():
         Obligation("O3.5", "export half-sets: even subtomogram number -> 2, odd -> 1", o35, floor=3),
         Obligation("O3.6", "generated names carry the padded ids and are parsed back to the same ids", o36, floor=40),
         Obligation("O3.7", "library calls on the RELION conversion paths exist in the installed pandas", o37, floor=20),
-        Obligation("O3.8a", "STAR writer on the via-file path: cell text reads back to the value (shared with C02)", _star.o23, floor=30),
+        Obligation("O3.8a", "STAR writer on the via-file path: header and row text read back to the table (shared with C02)", lambda ctx: (_star.o23(ctx), _star.o25(ctx)), floor=200),
         Obligation("O3.8b", "STAR reader on the via-file path: numeric conversion and block tables (shared with C02)", _star.o24, floor=5),
     ]
 
